@@ -316,7 +316,8 @@ def _judge_refuted(pid, w, r, o, ledger, kf):
     reproduced = bool(rep and rep.get("reproduced"))
     witness_hit = None
     if not reproduced:
-        for wn in c.witnesses:
+        names = ([kf["witness"]] if kf is not None and kf.get("witness") else []) + [x for x in c.witnesses]
+        for wn in names:
             holds, detail = run_witness(wn)
             if holds is False:
                 witness_hit = (wn, detail)
